@@ -16,7 +16,7 @@ Extraction "model.ml"
   core_combine_signature_shares core_combine_public_key_shares combine_secret_shares
   basic_sign basic_verify basic_aggregate_verify aug_sign aug_verify aug_aggregate_verify
   pop_sign pop_verify_sig pop_multi_sig_verify pop_aggregate_verify pop_prove pop_verify
-  basic_partial_verify pop_partial_verify
+  basic_partial_verify pop_partial_verify aggregate_signatures multi_from_signatures
   generate_commitment compute_y generate_proof generate_timestamp_proof pok_verify
   verify_timestamp_proof
   sc_seal sc_valid sc_unseal sc_unseal_with_shares sc_decrypt sc_create_decryption_share
